@@ -92,10 +92,17 @@ func mod(r *goja.Runtime) *goja.Object {
 	return m
 }
 
+// apiBox hides the module's Go API from scripts: a wrapped *Buffer would offer its exported Go methods (WrapBytes,
+// DecodeBytes, ...) to any script that looks up the symbol, to be called by reflection with arbitrary arguments.
+type apiBox struct {
+	b *Buffer
+}
+
 func api(mod *goja.Object) *Buffer {
 	if s := mod.GetSymbol(symApi); s != nil {
-		b, _ := s.Export().(*Buffer)
-		return b
+		if box, ok := s.Export().(*apiBox); ok {
+			return box.b
+		}
 	}
 
 	return nil
@@ -1148,7 +1155,7 @@ func Require(runtime *goja.Runtime, module *goja.Object) {
 
 	ctor := runtime.ToValue(b.ctor).ToObject(runtime)
 	ctor.SetPrototype(uint8ArrayObj)
-	ctor.DefineDataPropertySymbol(symApi, runtime.ToValue(b), goja.FLAG_FALSE, goja.FLAG_FALSE, goja.FLAG_FALSE)
+	ctor.DefineDataPropertySymbol(symApi, runtime.ToValue(&apiBox{b}), goja.FLAG_FALSE, goja.FLAG_FALSE, goja.FLAG_FALSE)
 	b.bufferCtorObj = ctor
 	b.uint8ArrayCtorObj = uint8ArrayObj
 
